@@ -116,7 +116,21 @@ fn add_thousands_separators(integer: &str) -> String {
 /// Format a decimal value with a fixed number of decimal places.
 pub fn format_decimal_with_precision(value: Decimal, precision: u32) -> String {
     let rounded = value.round_dp_with_strategy(precision, RoundingStrategy::MidpointAwayFromZero);
-    format!("{rounded:.precision$}", precision = precision as usize)
+    // Pad by hand: `{:.N}` on a Decimal panics once the padded text outgrows rust_decimal's
+    // 32-byte buffer (a 29-digit amount shown with three decimals).
+    let mut text = rounded.to_string();
+    let precision = precision as usize;
+    if precision > 0 {
+        let decimals = match text.find('.') {
+            Some(dot) => text.len() - dot - 1,
+            None => {
+                text.push('.');
+                0
+            }
+        };
+        text.extend(std::iter::repeat_n('0', precision.saturating_sub(decimals)));
+    }
+    text
 }
 
 /// Round a decimal value to 2 decimal places using GBP-consistent rounding.
